@@ -97,12 +97,60 @@ Cro(r) ==
       /\ Name(r) \in CroUpdates => r.h = prev.h - 2  \* consumes exactly reactant and product populations
 
 \* ---- C17 (template level): cool, then accept -- the Metropolis decision of pass k uses t_0 * alpha^k
+\* r.x (harness: sa_extra) describes, root scope first, the scope chain of temperatures -- own[j] = 1: scope j holds a
+\* Temperature of its own, tid[j]: which value (interned bits, 0 = none), tit[j] / tnx[j]: it is that SA's
+\* t_0 * alpha^(its passes) / ... ^(its passes + 1) -- and the operands the acceptance is about to see: ranks cur / cand of the
+\* single individuals in the two top populations (NoObj: the stack has another shape), curt = tag of the current solution,
+\* pcl = class of exp(-(f(cand) - f(cur)) / T) at the temperature in force.
+SaDepth(r) == Len(r.x.tid)
+SaChain(r) ==                                        \* every SA keeps its own temperature, in its own scope
+    LET k  == SaDepth(r)
+        pk == SaDepth(prev) IN
+    /\ k = r.sd /\ Len(r.x.own) = k
+    /\ k \in {pk - 1, pk, pk + 1}
+    \* within a scope only the cooling component changes a temperature ...
+    /\ (k = pk /\ Name(r) # "GeometricCooling") => r.x.tid = prev.x.tid /\ r.x.own = prev.x.own
+    \* ... namely the one of its own SA (innermost scope), by exactly one multiplication with that SA's alpha;
+    \* the temperatures of the enclosing scopes stay as they are
+    /\ Name(r) = "GeometricCooling" =>
+          /\ k = pk /\ r.x.own = prev.x.own /\ r.x.own[k] = 1
+          /\ r.x.cool1 = 1
+          /\ \A j \in 1..(k - 1) : r.x.tid[j] = prev.x.tid[j]
+    \* entering a scope: an SA initialised there starts at its own t_0 in the NEW scope (shadowing); the
+    \* temperatures of the enclosing SAs are not overwritten
+    /\ k = pk + 1 =>
+          /\ SubSeq(r.x.tid, 1, pk) = prev.x.tid /\ SubSeq(r.x.own, 1, pk) = prev.x.own
+          /\ r.x.own[k] = 1 => r.x.tit[k] = 1
+    \* leaving it: the nested temperature is gone, the enclosing ones are what they were
+    /\ k = pk - 1 => r.x.tid = SubSeq(prev.x.tid, 1, k) /\ r.x.own = SubSeq(prev.x.own, 1, k)
+
+SaDecision(r) ==                                     \* the Metropolis rule on the recorded populations
+    LET cur  == prev.x.cur
+        cand == prev.x.cand IN
+    /\ cur # NoObj /\ cand # NoObj                   \* two evaluated single individuals: current below, candidate on top
+    /\ Len(prev.top) = 1 /\ Len(r.top) = 1 /\ Len(r.topr) = 1
+    \* one population holding the survivor
+    /\ <<r.top[1], r.topr[1]>> \in {<<prev.x.curt, cur>>, <<prev.top[1], cand>>}
+    \* a candidate at least as good as the CURRENT solution always replaces it -- whatever else the state
+    \* remembers (best individual, enclosing temperatures)
+    /\ cand <= cur => r.top = prev.top /\ r.topr = <<cand>>
+    \* a worse one never as T -> 0, always as T -> infinity (T = the temperature of this SA)
+    /\ (cand > cur /\ prev.x.pcl = "zero") => r.top = <<prev.x.curt>> /\ r.topr = <<cur>>
+    /\ prev.x.pcl = "one" => r.top = prev.top /\ r.topr = <<cand>>
+
 Sa(r) ==
     /\ Name(r) = "ExponentialAnnealingAcceptance" =>
           /\ prev.ev = "step" /\ prev.name = "GeometricCooling"      \* directly after the cooling step
           /\ r.x.t_next = 1                           \* temperature in force = t_0 * alpha^(completed passes + 1)
+          /\ r.x.own[SaDepth(r)] = 1                  \* ... and it is this SA's own, in this SA's scope
+          /\ SaDecision(r)
     /\ Name(r) = "GeometricCooling" => r.x.t_next = 1                \* multiplied exactly once per pass
     /\ Name(r) \in {"All", "PopulationEvaluator", "BestIndividualUpdate"} => r.x.t_iters = 1   \* nobody else changes it
+    /\ prev.xk = "sa" => SaChain(r)
+    \* once per pass, for every SA loop (an enclosing SA is not cooled by the passes of a nested one): at the end of a pass
+    \* the temperature of the loop's scope is t_0 * alpha^(completed passes + 1), after the loop t_0 * alpha^passes
+    /\ (r.ev = "exit" /\ r.role = "loop_body") => r.x.own[SaDepth(r)] = 1 /\ r.x.tnx[SaDepth(r)] = 1
+    /\ Name(r) = "Loop" => r.x.own[SaDepth(r)] = 1 /\ r.x.tit[SaDepth(r)] = 1
 
 \* ---- what every record must satisfy, relative to the previous one
 Common(r) ==
